@@ -358,6 +358,21 @@ pub fn run(data: &[u8], ctx: &mut Ctx) -> Outcome {
         let wo: Vec<D32> = want_m.iter().map(|x| object_of(x).unwrap().digest()).collect();
         let go: Vec<D32> = r5.iter().map(|x| d32(&x.digest())).collect();
         check!(ctx, go == wo, "lookup", "C15/lookup/objects_for_predicate", "objects_for_predicate differs from the matching objects");
+        // the plural typed lookup: all matching objects as T, or an error - never a subset
+        {
+            let r = nopanic!(ctx, e.extract_objects_for_predicate::<String>(probe.clone()), "lookup", "C15/lookup/extract-plural");
+            let stored: Vec<Option<&Vec<u8>>> = want_m.iter().map(|a| object_of(a).and_then(|o| leaf_of(innermost_subject(o)))).collect();
+            match r {
+                Ok(vs) => {
+                    let ok = vs.len() == stored.len() && vs.iter().zip(stored.iter()).all(|(v, st)| st.map(|b| *b == cbor::encode(&Item::T(v.clone()))).unwrap_or(false));
+                    check!(ctx, ok, "lookup", "C15/lookup/extract-plural", "extract_objects_for_predicate::<String> returned {} values {:?} for {} matching assertions (every object as T, or an error)", vs.len(), vs, stored.len());
+                }
+                Err(_) => {
+                    let all_text = !stored.is_empty() && stored.iter().all(|st| st.map(|b| b.first().map(|x| x >> 5 == 3).unwrap_or(false)).unwrap_or(false));
+                    check!(ctx, !all_text, "lookup", "C15/lookup/extract-plural", "extract_objects_for_predicate::<String> failed although all {} matching objects are text leaves", stored.len());
+                }
+            }
+        }
         // typed extraction through a lookup: never another value
         if wd.len() == 1 {
             let obj = object_of(want_m[0]).unwrap();
@@ -366,6 +381,7 @@ pub fn run(data: &[u8], ctx: &mut Ctx) -> Outcome {
                 let ok = leaf_of(innermost_subject(obj)).map(|b| *b == cbor::encode(&Item::T(sv.clone()))).unwrap_or(false);
                 check!(ctx, ok, "lookup", "C15/lookup/extract", "extract_object_for_predicate::<String> returned {:?}, which is not the stored object", sv);
             }
+            // (continued below for every number of matches)
             // the conversion route through a lookup (the object itself must be the leaf)
             let own = leaf_of(obj);
             let r = nopanic!(ctx, e.try_object_for_predicate::<String>(probe.clone()), "lookup", "C15/lookup/try");
